@@ -114,6 +114,7 @@ TReal ==
            \* the bumps after which the fresh location disagrees)
            volok == \/ oc = "boundary"
                     \/ ~Rec.out1 /\ Rec.vol1 = Rec.vol0 /\ (oc = "bumped" \/ Rec.volf = Rec.vol0)
+           bumpmove == Len(calls) > 0 /\ calls[Len(calls)][1] \in {"MoveTo", "MoveToD"}
            momok == orc.unit_res <= orc.unit_tol /\ k.p1 = k.p0 /\ orc.pdrift <= orc.pdrift_tol
            \* the last iteration committed a boundary: the momentum taken from the end of that
            \* substep belongs (within tolerance) to the point where the particle was put
@@ -128,12 +129,14 @@ TReal ==
                \cup (IF momat THEN {} ELSE {"C08.MomentumAtEndPoint"})
                \* (when the momentum was taken from a distant point the direction oracle has nothing to add)
                \cup (IF (orc.helix /\ momat) => orc.ares <= orc.atol THEN {} ELSE {"C08.Oracle.HelixDirection@" \o Rec.stepper})
-               \cup (IF oc = "full" => k.gap <= k.tolgap THEN {} ELSE {"C08.RoundUpBounded"})
+               \* a full step reported although the accepted substeps add up to less: the rest must be
+               \* negligible (not applicable when the full step IS the bump: step <= bump_distance)
+               \cup (IF (oc = "full" /\ ~bumpmove) => k.gap <= k.tolgap THEN {} ELSE {"C08.RoundUpBounded"})
                \* contract edges: assertions of the code itself that only a debug build evaluates
-               \cup (IF oc = "full" => k.gap <= k.softtol THEN {} ELSE {"C08.Edge.RoundUpNotSoftEqual"})
+               \cup (IF (oc = "full" /\ ~bumpmove) => k.gap <= k.softtol THEN {} ELSE {"C08.Edge.RoundUpNotSoftEqual"})
                \cup (IF oc = "boundary" => res.dist <= k.step THEN {} ELSE {"C08.Edge.BoundaryBeyondStep"}))
        /\ stat' = [stat EXCEPT !.real = @ + 1, !.calls = @ + Len(calls), ![oc] = @ + 1, !.clauses = @ + 16,
-                               !.roundup = @ + (IF oc = "full" /\ k.gap > k.zero THEN 1 ELSE 0),
+                               !.roundup = @ + (IF oc = "full" /\ ~bumpmove /\ k.gap > k.zero THEN 1 ELSE 0),
                                !.onb_starts = @ + (IF Rec.onb0 THEN 1 ELSE 0),
                                !.bumpout = @ + (IF oc = "bumped" /\ Rec.volf # Rec.vol0 THEN 1 ELSE 0)]
 
